@@ -6,6 +6,8 @@
 # worker turns the recorded differences into violations of the property whose check was running: whatever the property says about the
 # result of run() has to hold for every way of asking for it.
 SHADOW = {"p": 0.0, "rng": None, "found": [], "n": 0}
+import os as _os
+CRLF_PATH = [_os.environ.get("VF_SHADOW_CRLF", "1") == "1"]
 
 
 def parse(ddl, ctor=None, **run_kw):
@@ -39,6 +41,16 @@ def _shadow(p, ddl, ctor, run_kw, first):
         sh["found"].append({"path": "second run() on the same object", "ddl": ddl, "ctor": ctor or {}, "run_kw": run_kw, "observed": again, "first_call": keep})
     if first != keep and len(sh["found"]) < 20:
         sh["found"].append({"path": "result of the first run() modified by the second", "ddl": ddl, "ctor": ctor or {}, "run_kw": run_kw, "observed": first, "first_call": keep})
+    if CRLF_PATH[0] and "\r" not in ddl and "\n" in ddl:
+        # (c) the same text with Windows line ends handed to a fresh object
+        try:
+            from simple_ddl_parser import DDLParser
+            cr = ("ok", DDLParser(ddl.replace("\n", "\r\n"), **(ctor or {})).run(**run_kw))
+        except Exception as e:
+            cr = ("exc", type(e).__name__, str(e)[:200])
+        sh["crlf_n"] = sh.get("crlf_n", 0) + 1
+        if cr != ("ok", keep) and len(sh["found"]) < 20:
+            sh["found"].append({"path": "the same text with CRLF line ends", "ddl": ddl, "ctor": ctor or {}, "run_kw": run_kw, "observed": cr, "first_call": keep})
     if "\r" not in ddl and not ({"file_path", "dump", "dump_path"} & set(run_kw)):
         vf = parse_via_file(ddl, ctor, **run_kw)
         if vf != ("ok", keep) and len(sh["found"]) < 20:
